@@ -19,6 +19,9 @@ func init() {
 			Why: "AD=1 over an unvalidated chase target on the wire path only (seeded C05)"},
 	})
 	addMutants("C06", []Mutant{
+		{ID: "c06-cancel-echoes-request-extra", File: "middleware/chain.go", Expect: "C06-R7|ratelimit",
+			Old: "\tm.Extra = rcodeReplyExtra(req)\n", New: "\tm.Extra = req.Extra\n",
+			Why: "re-introduces F-C06-1 (fixed in 5939612): pre-edns rejects reflect the client's options"},
 		{ID: "c06-dnssec-flag-answer-only", File: "middleware/cache/entry_wire.go", Expect: "C06-R8",
 			Old: "\t\tif i < answered {\n\t\t\tswitch rr.Type {", New: "\t\tif i < int(header.ANCount) {\n\t\t\tswitch rr.Type {",
 			Why: "signed negative answers served unstripped to DO=0 clients on the byte path (seeded C06)"},
